@@ -283,9 +283,17 @@ pub fn run_c09(case: &C09Case, info: &mut CaseInfo) -> Result<(), Fail> {
                 let k = &case.devices[i];
 
                 ensure!(f.identity == (k.vendor, k.product, k.revision, k.serial), "C09|identity", "device {i}: identity {:x?} recorded, device has {:x?}", f.identity, (k.vendor, k.product, k.revision, k.serial));
-                let want_name = if k.unnamed { format!("manu. {:#010x}, device {:#010x}, serial {:#010x}", k.vendor, k.product, k.serial) } else { normalise_name(&k.name) };
+                // A device without a name string gets a made-up name whose wording is the
+                // MainDevice's business; it must at least not be another device's name string
+                if k.unnamed {
+                    let foreign = case.devices.iter().take(effective_n).any(|o| !o.unnamed && !o.name.is_empty() && f.name == normalise_name(&o.name));
 
-                ensure!(f.name == want_name, "C09|name", "device {i}: name {:?} recorded, device has {:?}", f.name, want_name);
+                    ensure!(!foreign, "C09|name", "device {i} has no name string, but was recorded with another device's name {:?}", f.name);
+                } else {
+                    let want_name = normalise_name(&k.name);
+
+                    ensure!(f.name == want_name, "C09|name", "device {i}: name {:?} recorded, device has {:?}", f.name, want_name);
+                }
                 ensure!(f.alias == k.alias, "C09|alias", "device {i}: alias {:#x} recorded, device has {:#x}", f.alias, k.alias);
                 ensure!(f.dc == dc_kind_code(k.dc), "C09|dc-capability", "device {i}: DC capability {} recorded, device has {:?}", f.dc, k.dc);
                 ensure!(f.group == usize::from(case.assign[i]) % 3, "C09|group", "device {i} placed in group {}, filter named {}", f.group, case.assign[i] % 3);
